@@ -47,6 +47,13 @@ Inductive case :=
         (* block stored at first.Height with first's id; pool.height after; peers stopped (sorted);
            requester of first.Height and of first.Height+1 afterwards (peer, has block; (-1,false) =
            no requester); consensus.NewState on the resulting state and store: 0 ok, 1 panic, 2 not run *)
+        (sw : Z * N * Z * N)
+        (* the real hand-over: the chain's InitialHeight; Reactor.SwitchToConsensus(state after the
+           step, true) on the consensus State/Reactor built over the node's stores at node start:
+           0 returned, 1 panicked, 2 not run, 3 consensus.NewState at node start panicked;
+           RoundState.Height afterwards; RoundState.LastCommit afterwards: 0 nil, 1 MakeCommit() equals
+           the stored seen commit of the state's last block (height, round, block id, every
+           signature slot), 2 anything else, 3 not observed *)
 (* one whole sync of a live reactor against scripted peers *)
 | CScen (canon : list Z)           (* canonical ids, heights 1.. *)
         (start : Z)                (* blocks the node had at the start *)
@@ -59,6 +66,23 @@ Inductive case :=
         (handover : N)             (* consensus.NewState on what was stored: 0 ok, 1 panic, 2 not run *)
         (seen_class : N)           (* the seen commit of the last stored block: 0 all slots genuine,
                                       1 a non-absent slot carries a foreign address but every signature is valid, 2 other *)
+(* the hand-over of one whole sync: consensus.NewState on the state and store the node had at
+   start, block sync against scripted peers, then the blockchain reactor's own call of the real
+   consensus Reactor.SwitchToConsensus *)
+| CHand (vals : list (Z * Z * Z)) (chain ih : Z)
+        (h0 h1 : Z)                (* State.LastBlockHeight at node start / of the state handed over *)
+        (seen0 seen1 : option ((Z * Z * Z) * (Z * Z * Z * Z) * list slott))
+        (* the seen commits stored for h0 and h1 (cm, base, slots as in CStep); None when the height
+           is 0 or the harness does not know how the stored commit was made *)
+        (verified : bool)
+        (* checked by the harness without the repository's VerifyCommit: every block the node
+           stored during the sync is the canonical one and its stored seen commit has one slot per
+           validator, every non-absent slot signed by the positional validator's key over the vote
+           the slot stands for, and more than 2/3 for the block *)
+        (obs : N * N * Z * N * bool * N)
+        (* NewState at node start (0 ok, 1 panic); SwitchToConsensus (0 returned, 1 panicked, 2 never
+           called); RoundState.Height; LastCommit class (as in CStep); consensus state running and
+           WaitSync() = false afterwards; consensus.NewState on the result (0 ok, 1 panic, 2 not run) *)
 | CPool (start : Z) (ops : list pop) (snap : psnap).
 
 (* ------------------------------------------------------------------ helpers *)
@@ -102,7 +126,9 @@ Definition rq_view (pl : pool isig) (h : Z) : Z * bool :=
 
 Definition check_step vals chain st_h (first : Z * Z * bool) canon (cm : Z * Z * Z) base sigs p1 p2
            (comp : rest * rest * N)
-           (obs : bool * Z * list Z * (Z * bool) * (Z * bool) * N) : list verdict :=
+           (obs : bool * Z * list Z * (Z * bool) * (Z * bool) * N)
+           (sw : Z * N * Z * N) : list verdict :=
+  let '(ih, sres, sh, lcc) := sw in
   let '(fh, fid, vok) := first in
   let '(ch, cr, cb) := cm in
   let '(rl, rf, ctv) := comp in
@@ -131,6 +157,13 @@ Definition check_step vals chain st_h (first : Z * Z * bool) canon (cm : Z * Z *
   let m_saved := match n_store n1 with e :: _ => (se_height e =? fh) && (se_id e =? fid) | [] => false end in
   let m_ho : N := if m_saved
                   then (if handover ideal_verify pk_addr_i n1 then 0%N else 1%N) else 2%N in
+  (* the consensus state NewState built at node start for [st] (its LastCommit is overwritten by
+     the switch whenever the handed-over state has a block) *)
+  let cs0 := {| cs_height := next_height ih st; cs_commit_round := -1; cs_votes := Some empty_voteset;
+                cs_last_commit := None; cs_state := Some st |} in
+  let m_sw := switch_to_consensus ideal_verify pk_addr_i ih (n_store n1) cs0 (n_state n1) in
+  let m_sres : N := if m_saved then (match m_sw with Some _ => 0%N | None => 1%N end) else 2%N in
+  let m_sh : Z := match m_sw with Some cs' => cs_height cs' | None => -1 end in
   let m_ctv : N := match commit_to_voteset ideal_verify pk_addr_i chain c vs with
                    | None => 2%N
                    | Some v => match vs_maj23 v with Some _ => 0%N | None => 1%N end
@@ -153,9 +186,13 @@ Definition check_step vals chain st_h (first : Z * Z * bool) canon (cm : Z * Z *
                 && (3 * pos_tally chain fh cr fid vs css >? 2 * total))
           || saved) 4;
     (* clause 5: what was stored lets consensus start *)
-    (if saved && negb (ho =? 0)%N
+    (if (saved && (negb (ho =? 0)%N || (sres =? 1)%N)) || (sres =? 3)%N
      then (if same_len && all_valid && foreign_addr vs css then V_known 31 else V_violation 5)
      else V_ok);
+    (* clause 41: after the switch consensus is at the height after the stored block *)
+    viol (negb (saved && (sres =? 0)%N) || (sh =? fh + 1)) 41;
+    (* clause 42: ... and its LastCommit is the stored seen commit *)
+    viol (negb (saved && (sres =? 0)%N) || (lcc =? 1)%N) 42;
     (* model vs implementation *)
     mism (rest_eqb (res_code (verify_commit_light ideal_verify vs chain fid fh c)) rl) 11;
     mism (rest_eqb (res_code (verify_commit ideal_verify vs chain fid fh c)) rf) 12;
@@ -164,7 +201,9 @@ Definition check_step vals chain st_h (first : Z * Z * bool) canon (cm : Z * Z *
     mism (p_height (n_pool n1) =? ph) 15;
     mism (zlist_eqb (sort_z (n_stopped n1)) stopped) 16;
     mism (zb_eqb (rq_view (n_pool n1) fh) rq1 && zb_eqb (rq_view (n_pool n1) (fh + 1)) rq2) 17;
-    mism (m_ho =? ho)%N 18 ].
+    mism (m_ho =? ho)%N 18;
+    mism ((sres =? 3)%N || (m_sres =? sres)%N) 19;
+    mism (negb (saved && (sres =? 0)%N) || (m_sh =? sh)) 20 ].
 
 (* ------------------------------------------------------------------ CScen (monitors only) *)
 
@@ -195,6 +234,63 @@ Definition check_scen (canon : list Z) (start : Z) (stored : list Z) (tip : Z)
     (* clause 5: what was stored lets consensus start *)
     (if negb (ho =? 1)%N then V_ok
      else if (seen_class =? 1)%N then V_known 31 else V_violation 5) ].
+
+(* ------------------------------------------------------------------ CHand *)
+
+Definition cdescr := ((Z * Z * Z) * (Z * Z * Z * Z) * list slott)%type.
+
+Definition mk_commit (d : cdescr) : commit isig :=
+  let '((ch, cr, cb), base, sigs) := d in
+  {| c_height := ch; c_round := cr; c_bid := cb; c_sigs := map (mk_cs base) sigs |}.
+
+Definition check_hand (vals : list (Z * Z * Z)) (chain ih h0 h1 : Z) (seen0 seen1 : option cdescr)
+           (verified : bool) (obs : N * N * Z * N * bool * N) : list verdict :=
+  let '(start, sres, sh, lcc, running, ho) := obs in
+  let vs := map mk_val vals in
+  let failed := (start =? 1)%N || (sres =? 1)%N || (ho =? 1)%N in
+  let known :=
+    match seen1 with
+    | Some d =>
+      let c := mk_commit d in
+      Nat.eqb (List.length vs) (List.length (c_sigs c))
+      && all_sigs_valid chain (c_height c) (c_round c) (c_bid c) vs (c_sigs c)
+      && foreign_addr vs (c_sigs c)
+    | None => false
+    end in
+  let expected := if h1 =? 0 then ih else h1 + 1 in
+  (* the model's hand-over, when the harness knows how both seen commits were made *)
+  let have := (start =? 0)%N && ((sres =? 0)%N || (sres =? 1)%N)
+              && ((h0 =? 0) || match seen0 with Some _ => true | None => false end)
+              && ((h1 =? 0) || match seen1 with Some _ => true | None => false end) in
+  let entry h (o : option cdescr) : list (sentry isig) :=
+    match o with
+    | Some d => [ {| se_height := h; se_id := c_bid (mk_commit d); se_seen := mk_commit d |} ]
+    | None => []
+    end in
+  let store0 := entry h0 seen0 in
+  let store1 := if h1 =? h0 then store0 else entry h1 seen1 ++ store0 in
+  let st h := {| st_chain := chain; st_height := h; st_vals := vs; st_last_vals := vs; st_tag := 0 |} in
+  let m := match new_state ideal_verify pk_addr_i ih store0 (st h0) with
+           | None => None
+           | Some cs0 => Some (switch_to_consensus ideal_verify pk_addr_i ih store1 cs0 (st h1))
+           end in
+  let m_sres : N := match m with Some (Some _) => 0%N | Some None => 1%N | None => 3%N end in
+  let m_sh : Z := match m with Some (Some cs') => cs_height cs' | _ => -1 end in
+  let m_lc : bool := match m with
+                     | Some (Some cs') => match cs_last_commit cs' with Some _ => true | None => false end
+                     | _ => false end in
+  [ (* clause 1: what the node stored is committed *)
+    viol verified 1;
+    (* clause 5: the hand-over failed although every stored block and commit verified *)
+    (if failed then (if known then V_known 31 else V_violation 5) else V_ok);
+    (* clause 41: consensus runs at the height after the last stored block (InitialHeight when
+       nothing was ever stored) *)
+    viol (negb (sres =? 0)%N || ((sh =? expected) && running)) 41;
+    (* clause 42: its LastCommit is the stored seen commit of that block (nil before the first) *)
+    viol (negb (sres =? 0)%N || (if h1 =? 0 then (lcc =? 0)%N else (lcc =? 1)%N)) 42;
+    mism (negb have || (m_sres =? sres)%N) 19;
+    mism (negb (have && (sres =? 0)%N) || (m_sh =? sh)) 20;
+    mism (negb (have && (sres =? 0)%N) || Bool.eqb m_lc (negb (lcc =? 0)%N)) 29 ].
 
 (* ------------------------------------------------------------------ CPool *)
 
@@ -270,8 +366,10 @@ Definition check_pool (start : Z) (ops : list pop) (snap : psnap) : list verdict
 
 Definition check (c : case) : verdict :=
   match c with
-  | CStep vals chain st_h first canon cm base sigs p1 p2 comp obs =>
-    first_of (check_step vals chain st_h first canon cm base sigs p1 p2 comp obs)
+  | CStep vals chain st_h first canon cm base sigs p1 p2 comp obs sw =>
+    first_of (check_step vals chain st_h first canon cm base sigs p1 p2 comp obs sw)
+  | CHand vals chain ih h0 h1 seen0 seen1 verified obs =>
+    first_of (check_hand vals chain ih h0 h1 seen0 seen1 verified obs)
   | CScen canon start stored tip peers nbad switched ho sc =>
     first_of (check_scen canon start stored tip peers nbad switched ho sc)
   | CPool start ops snap => first_of (check_pool start ops snap)
